@@ -172,7 +172,7 @@ CHECKS = {
         text=("Programs are plain data (source in {Const, ReaderFunc, ScanReader} + a chain of operators from Map, Filter, Flatmap(0/1/2/5/variable outputs), Fold, Head, Reduce, Cogroup (single, with self, with a second source), Reshuffle, "
               "Repartition, Reshard, Prefixed+Reduce, Scan, WriterFunc, plus fixed DAG shapes: shared sub-slice consumed with two shard counts, nested shuffles, 3-way Cogroup) built by one registered Func from the AST. Quick: every chain of <=1 operator "
               "over the full 29-variant alphabet x 336 source configurations (rows 0,1,3,4,5,9 around the internal vector size set to 4; keys equal/distinct/colliding; 1-3 shards), all DAG shapes, and every well-typed chain of 2 operators over a "
-              "20-variant core alphabet x 24 configurations, each at Parallelism 1 and 4 (33k runs). Thorough: depth 2 over all configurations, depth 3 over the reduced ones, plus runs at the real vector size 128 (347k runs). Oracle: the scanned rows "
+              "20-variant core alphabet x 24 configurations, each at Parallelism 1 and 4 (33k runs). Thorough: depth 2 over all configurations, depth 3 over the reduced ones, plus runs at the real vector size 128 (347k runs). Also: Cogroup over 257/600-row shards, Filter over multi-vector inputs, struct columns, two-invocation programs, a cluster subset, and a key-type family (Reduce, Fold, Cogroup, Reshuffle, Fold over a Reshuffle over all 14 built-in key types incl. their extreme values, concrete Go programs against a map model). Oracle: the scanned rows "
               "equal the reference as a multiset, and as a sequence where the program fixes the order; Scan/WriterFunc callbacks observe every row of every shard exactly once followed by exactly one end-of-stream; runs terminate."),
         note=TRUSTED + " The reference evaluator (harness/refeval/eval.go) imports only the standard library. One genuine deviation is recorded in known_findings.jsonl (side effects repeated for a sub-slice read with two partition counts). "
              "Seeded random generation of larger programs (mentioned by the property's quantifier) is another family and not done.",
